@@ -83,7 +83,7 @@ Ltac gonorm :=
   | |- context[Nat.add ?a ?b] => is_nat_num a; is_nat_num b; let v := eval compute in (Nat.add a b) in change (Nat.add a b) with v
   | |- context[Nat.min ?a ?b] => is_nat_num a; is_nat_num b; let v := eval compute in (Nat.min a b) in change (Nat.min a b) with v
   | |- context[skipn 0 ?l] => change (skipn 0 l) with l
-  end; autorewrite with golen; rewrite ?set_nth_length by (autorewrite with golen; lia); rewrite ?slice_of_ok by (cbn [length]; lia).
+  end; autorewrite with golen; rewrite ?set_nth_length by (autorewrite with golen; lia); rewrite ?slice_of_ok by (cbn [length]; autorewrite with golen; lia).
 (* decide the conditionals arithmetic settles *)
 Ltac golia := repeat match goal with
   | |- context[if ?c then _ else _] =>
@@ -164,3 +164,10 @@ Ltac loop_step L :=
   match goal with
   | |- context[loop ?c ?b ?p ?k] => remember (loop c b p k) as L
   end.
+
+Lemma beq_sym a b : beq a b = beq b a.
+Proof.
+  destruct (beq a b) eqn:E.
+  - apply beq_spec in E. subst. symmetry. apply beq_refl.
+  - apply beq_false in E. symmetry. apply beq_false. congruence.
+Qed.
